@@ -153,7 +153,7 @@ def impl_match(pat, path):
     return "re %s res %s" % (re_s, ("match " + render_params(params)) if ok else "nomatch")
 
 
-def run_wsgi(patterns, path):
+def run_wsgi(patterns, path, root=""):
     log = []
 
     def mk(i):
@@ -173,7 +173,7 @@ def run_wsgi(patterns, path):
     for _ in range(2):        # the same request twice on one router: the answer may not depend on history
         del log[:]
         status = []
-        environ = {"REQUEST_METHOD": "GET", "PATH_INFO": path, "SCRIPT_NAME": "", "QUERY_STRING": "",
+        environ = {"REQUEST_METHOD": "GET", "PATH_INFO": path, "SCRIPT_NAME": root, "QUERY_STRING": "",
                    "SERVER_NAME": "t", "SERVER_PORT": "80", "wsgi.url_scheme": "http"}
         try:
             for _ in router(environ, lambda s, h, e=None: status.append(s)):
@@ -199,7 +199,7 @@ def _scribble(params):
         pass
 
 
-def run_asgi(patterns, path):
+def run_asgi(patterns, path, root=""):
     log = []
 
     def mk(i):
@@ -227,7 +227,7 @@ def run_asgi(patterns, path):
     for _ in range(2):
         del log[:]
         del sent[:]
-        scope = {"type": "http", "method": "GET", "path": path, "root_path": "", "query_string": b"", "headers": [],
+        scope = {"type": "http", "method": "GET", "path": path, "root_path": root, "query_string": b"", "headers": [],
                  "scheme": "http", "server": ("t", 80)}
         coro = router(scope, receive, send)
         try:
@@ -252,9 +252,11 @@ def parse_table(tok):
     return [] if tok == "none" else [dec_text(p) for p in tok.split("|")]
 
 
-def impl_search(table, path):
-    w = run_wsgi(table, path)
-    a = run_asgi(table, path)
+def impl_search(table, path, root=""):
+    """root: the mount point the router is reached under (SCRIPT_NAME / scope["root_path"]); `path` is the path
+    below it.  Routing looks at the path alone - the model does not read the root."""
+    w = run_wsgi(table, path, root)
+    a = run_asgi(table, path, root)
     return w if w == a else "DIFF wsgi %s asgi %s" % (w, a)
 
 
@@ -322,7 +324,7 @@ def impl_direct(line):
     if op == "r_match":
         return impl_match(dec_text(a[1]), dec_text(a[2]))
     if op == "r_search":
-        return impl_search(parse_table(a[1]), dec_text(a[2]))
+        return impl_search(parse_table(a[1]), dec_text(a[2]), dec_text(a[3]) if len(a) > 3 else "")
     if op == "r_convert":
         return impl_convert(a[1], dec_text(a[2]))
     if op == "r_tostring":
@@ -794,8 +796,9 @@ def mk_match(pat, path):
     return "r_match %s %s" % (enc(pat), enc(path))
 
 
-def mk_search(table, path):
-    return "r_search %s %s" % ("|".join(enc(p) for p in table) if table else "none", enc(path))
+def mk_search(table, path, root=None):
+    line = "r_search %s %s" % ("|".join(enc(p) for p in table) if table else "none", enc(path))
+    return line if not root else line + " " + enc(root)
 
 
 def mk_convert(typ, text):
@@ -971,6 +974,13 @@ def cases(rng, tier):
         for sub in itertools.permutations(FAMILY, k):
             for path in FAMILY_PATHS:
                 yield mk_search(list(sub), path)
+    # the router reached under a mount point, request paths that begin with the mount point's own text again
+    for sub in itertools.permutations(FAMILY, 2):
+        for path in FAMILY_PATHS:
+            segs = [x for x in path.split("/") if x]
+            roots = ["/m"] + (["/" + segs[0]] if segs and segs[0].isascii() and segs[0].isalnum() else [])
+            for root in roots:
+                yield mk_search(list(sub), path, root)
     if not thorough:
         for _ in range(150):
             sub = rng.sample(FAMILY, 3)
@@ -1025,6 +1035,10 @@ def cases(rng, tier):
             if rng.random() < 0.5:
                 rng.shuffle(table)
                 yield mk_search(table, path)
+            if rng.random() < 0.3 and path.startswith("/") and len(path) > 1:
+                first = path.split("/")[1]
+                if first and first.isascii() and first.isalnum():
+                    yield mk_search(table, path, "/" + (first if rng.random() < 0.7 else first[:1]))
         elif kind < 0.9:
             typ = rng.choice(TYPES)
             t = rand_text(rng, typ, good=rng.random() < 0.6, allow_long=True)
